@@ -14,6 +14,8 @@ STYLES = ["rich", "quiet", "json", "json2", "luacheck", "luacheck-ranges"]
 
 # hand-written inputs: multi-line, zero-width and non-ASCII-adjacent ranges, parse errors
 TEMPLATES = [
+    'return value / 0 / 0\n',
+    'local r = { a = 1, a = 2, a = 3 }\nprint(r, x / 0 / 0 / 0)\n',
     'print("é", undefined_a)\n',
     'local s = "日本語"; print(undefined_b)\n',
     '--[[ é ]] local unused = 1\n',
